@@ -424,16 +424,117 @@ def vocab_tla(V):
     return "<<" + ",\n  ".join('[t |-> %s, kd |-> %s, c |-> %s]' % (Q(a), Q(b), Q(c)) for a, b, c in V) + ">>"
 
 
-def run_lex(ctx, name, rng, maxlex, seps, focus="all"):
+def run_lex(ctx, name, rng, maxlex, seps, focus="all", prefixes=("",)):
     V = lex_vocab(ctx, rng, focus)
-    ctx.write_params("MC_Lex_P", {"MaxLex": str(maxlex), "Seps": tla_seq(seps), "Vocab": vocab_tla(V)})
+    ctx.write_params("MC_Lex_P", {"MaxLex": str(maxlex), "Seps": tla_seq(seps), "Vocab": vocab_tla(V), "Prefixes": tla_seq(prefixes)})
     ctx.notes.append("%s: %d lexemes %s, <=%d per text, separators %s" % (name, len(V), [v[0] for v in V], maxlex, seps))
     r = ctx.run_tlc(name, "MC_Lex", "MC_Lex", timeout=3000, reps=2 if ctx.tier == "thorough" else 1)
     if r["violated"]:
         raise Infra("model-level invariant %s failed in MC_Lex with Dev = {} (specification problem, not a verdict)" % r["violated"])
-    if r["summary"]["byKind"].get("str", 0) != r["distinct"] - 1:
+    want = r["distinct"] - (1 if "" in prefixes else 0)
+    if r["summary"]["byKind"].get("str", 0) != want:
         raise Infra("%s: %d texts emitted, TLC found %d states" % (name, r["summary"]["byKind"].get("str", 0), r["distinct"]))
     return r
+
+
+def offset_prefixes(ctx, rng):
+    """lexically clean prefixes containing -or-later forms, '+', spaces and parentheses (C15's quantifier)"""
+    roles = Roles(ctx, rng)
+    t = ctx.tables
+    p1, p2, p3 = rng.sample(roles.unranged, 3)
+    A, B = p1 + "-or-later", p2 + "-or-later"
+    act = set(t["active"])
+    fold = [x for x in t["deprecated"] if not x.endswith("+") and x + "-or-later" in act]
+    G = (rng.choice(fold) + "+") if fold else p3 + "+"
+    E = rng.choice(t["exceptions"])
+    return ["", A + " AND ", "(" + A + ") OR ", "(" + A + " AND ", A + " WITH " + E + " AND ", "  " + A + "  AND  ", G + " AND ",
+            p3 + "+ OR (", A + " AND " + B + " OR ", A + " AND (" + B + ") AND ", "(" + A + " OR " + B + ") AND ", "(" + A + ")OR(",
+            "DocumentRef-d:LicenseRef-a AND ", p3 + "-only AND ", A.lower() + " AND ", B + " OR " + A + " WITH "]
+
+
+# --------------------------------------------------------------------------- C15
+def c15(ctx):
+    rng = random.Random(ctx.seed)
+    thorough = ctx.tier == "thorough"
+    pre = offset_prefixes(ctx, rng)
+    if thorough:
+        run_lex(ctx, "offsets3", rng, 3, [" "], focus="core", prefixes=pre)
+        run_lex(ctx, "lex3", rng, 3, [" ", "  "])
+    else:
+        run_lex(ctx, "offsets2", rng, 2, [" "], prefixes=pre)
+    ctx.drive("trace", "invalid", 1500 if thorough else 400, leaves=6)
+    ctx.validate_trace("trace")
+    return finish(ctx, relevant={"offset", "lexeme", "offset-no-error"},
+                  rule="valid prefixes (with -or-later forms, '+', spaces, parentheses) x every lexeme sequence up to the bound ending in an "
+                       "unknown id, a Ref prefix without a name or a foreign byte; the model scanner's caller-relative position and lexeme "
+                       "are compared with the offset/lexeme parsed from the error text of ExtractLicenses and Satisfies (expression and "
+                       "allowed-entry position); non-trivial = offset > 0")
+
+
+# --------------------------------------------------------------------------- C04
+def run_lists(ctx, name, rng, maxlist):
+    roles = Roles(ctx, rng)
+    t = ctx.tables
+    p1, p2 = rng.sample(roles.unranged, 2)
+    exc = rng.choice(t["exceptions"])
+    pool = [p1, p1.lower() if p1.lower() != p1 else p1.upper(), p1 + " AND " + p2, "(" + p2 + ")", "FOO-bar", p1 + " AND", "(",
+            "", p2 + " WITH " + exc]
+    exprs = [p1 + " OR " + p2, p1 + " OR", ""]
+    ctx.write_params("MC_Lists_P", {"MaxList": str(maxlist), "Pool": tla_seq(pool), "Exprs": tla_seq(exprs)})
+    ctx.notes.append("%s: pool %s, expressions %s, lists up to %d" % (name, pool, exprs, maxlist))
+    r = ctx.run_tlc(name, "MC_Lists", "MC_Lists", timeout=3000)
+    if r["violated"]:
+        raise Infra("model-level invariant %s failed in MC_Lists (specification problem, not a verdict)" % r["violated"])
+    return r
+
+
+C04_WHATS = {"validity-disagreement", "validate-list", "result-with-error", "invalid-allowed-entry-accepted", "allowed-entry",
+             "validate", "validity", "validate-shape", "verdict", "extract-error"}
+
+
+def c04(ctx):
+    rng = random.Random(ctx.seed)
+    thorough = ctx.tier == "thorough"
+    run_lists(ctx, "lists", rng, 4 if thorough else 3)
+    run_lex(ctx, "lex3", rng, 3, [" "] if not thorough else [" ", "  "])
+    lexL, lexE = pick_plain(ctx, rng), rng.choice(ctx.tables["exceptions"])
+    ctx.write_cfg("MC_Tok", constants={"MaxLen": 5 if thorough else 4, "LexL": Q(lexL), "LexE": Q(lexE)},
+                  invariants=["GrammarInv", "TotalInv", "RoundTrip", "Emit"])
+    r = ctx.run_tlc("tok", "MC_Tok", "MC_Tok", timeout=3000)
+    if r["violated"]:
+        raise Infra("model-level invariant %s failed in MC_Tok" % r["violated"])
+    ctx.drive("trace", "lists", 1000 if thorough else 300, leaves=5)
+    ctx.validate_trace("trace")
+    return finish(ctx, relevant=C04_WHATS,
+                  rule="every list up to the bound over a 9-string pool as ValidateLicenses argument and as allowed list of three expressions; "
+                       "every lexeme text and token sequence as single argument of all three entry points (agreement on validity, result "
+                       "false/nil with every error, exact invalid list); non-trivial = mixed valid/invalid list or valid text")
+
+
+# --------------------------------------------------------------------------- C03
+def c03(ctx):
+    rng = random.Random(ctx.seed)
+    thorough = ctx.tier == "thorough"
+    lexL, lexE = pick_plain(ctx, rng), rng.choice(ctx.tables["exceptions"])
+    ctx.write_cfg("MC_Tok", constants={"MaxLen": 6 if thorough else 5, "LexL": Q(lexL), "LexE": Q(lexE)},
+                  invariants=["GrammarInv", "TotalInv", "RoundTrip", "Emit"])
+    r = ctx.run_tlc("tok", "MC_Tok", "MC_Tok", timeout=3000)
+    if r["violated"]:
+        raise Infra("model-level invariant %s failed in MC_Tok" % r["violated"])
+    run_lex(ctx, "lex3", rng, 3, [" "] if not thorough else [" ", "  "])
+    if thorough:
+        run_lex(ctx, "lex4", rng, 4, [" "], focus="core")
+    run_tree(ctx, "tree", rng, 4)
+    run_lists(ctx, "lists", rng, 3)
+    ctx.drive("trace", "invalid", 2000 if thorough else 500, leaves=8)
+    ctx.validate_trace("trace")
+    return finish(ctx, relevant={"panic"},
+                  rule="all token-class sequences, lexeme texts (incl. foreign bytes, truncated Ref prefixes), expression trees x allowed "
+                       "subsets and argument lists the model enumerates, each run through all three exported functions under recover(); "
+                       "TLC: the descent's cursor is total (no PANIC outcome reachable); non-trivial = valid input")
+
+
+# ---------------------------------------------------------------------------
 
 
 # --------------------------------------------------------------------------- C05
@@ -463,7 +564,7 @@ def c05(ctx):
                        "non-trivial = accepted by the grammar")
 
 
-CHECKS = {"C01": c01, "C02": c02, "C05": c05, "C06": c06, "C08": c08, "C09": c09, "C11": c11}
+CHECKS = {"C01": c01, "C02": c02, "C03": c03, "C04": c04, "C15": c15, "C05": c05, "C06": c06, "C08": c08, "C09": c09, "C11": c11}
 
 MC = "model_checking"
 INFO = {
